@@ -363,7 +363,9 @@ def member_sets(rng, tier):
     return sets
 
 
-PASSWORDS = ["secret", "pass word-1", "пароль-密码", "\U0001f511\U00010348key", ""]
+# the last but one is NOT in a Unicode normal form (e + U+0301, c + U+0327, Hangul jamo): the key derivation hashes the UTF-16LE code
+# units of the string as given, so its NFC form is a different (wrong) password and the independent reader needs the exact one
+PASSWORDS = ["secret", "pass word-1", "пароль-密码", "\U0001f511\U00010348key", "cafe\u0301-c\u0327\u1100\u1161", ""]
 
 
 def wrong_passwords(pw):
@@ -376,6 +378,11 @@ def wrong_passwords(pw):
         out.append(("case", sw))
     if pw != "":
         out.append(("empty", ""))
+    import unicodedata
+    for form in ("NFC", "NFKD"):
+        nf = unicodedata.normalize(form, pw)
+        if nf != pw and all(nf != w for _, w in out):
+            out.append(("normalised-" + form, nf))
     return out
 
 
